@@ -28,9 +28,11 @@ def gen_pair(rnd, kind, dict_input, requires_labels, labelset):
         return rnd.uniform(0.1, 5) * rnd.choice([1, 1, 10]), {"output": rnd.uniform(0.1, 5)}
     if dict_input:
         labs = labelset
+        if rnd.random() < 0.5:      # predict_proba_one style: only some labels are present, the true one possibly missing
+            labs = rnd.sample(labelset, rnd.randrange(1, len(labelset) + 1))
         p = [rnd.random() + 1e-3 for _ in labs]
         s = sum(p)
-        return rnd.choice(labs), {k: v / s for k, v in zip(labs, p)}
+        return rnd.choice(labelset), {k: v / s for k, v in zip(labs, p)}
     if kind == "bin":
         return rnd.choice([False, True]), {"output": rnd.choice([False, True]) if requires_labels else rnd.random()}
     return rnd.choice(labelset), {"output": rnd.choice(labelset)}
